@@ -495,3 +495,30 @@ def slant(vc):
     obs = _NS(range_km=_Meas("range"), elevation_rad=_Meas("el"), azimuth_rad=_Meas("az"), julian_date=d, sensor_eci=sen)
     pos = vc.fn(TM + "radarObs2eciPosition")(obs)
     vc.ensure("O-C04-slant.radar-inversion", vc.eq(pos, tgt[:3]))
+
+
+SDT = "resonaate.physics.time.stardate:"
+
+
+@obligation("C04", "terrestrial_time", ensures=["O-C04-tt.continuous", "O-C04-tt.seconds"], fns=[TC + "utc2TerrestrialTime", TC + "seconds2hms", SDT + "JulianDate.getJulianDate"],
+            mode="R", note="the terrestrial-time epoch used for precession/nutation is (JD(y,m,d,0h) + (UTC seconds + dAT + 32.184)/86400 - 2451545)/36525 for every time of day, also when adding the TAI/TT offset carries past midnight: no day is lost or repeated, so the rotation it feeds is continuous")
+def terrestrial_time(vc):
+    y, m, d = vc.int("y", 2014, 2022), vc.int("m", 1, 12), vc.int("d", 1, 28)
+    h, mi = vc.int("h", 0, 23), vc.int("mi", 0, 59)
+    s = vc.real("s", 0, 59.999)
+    dat = vc.real("dat", 30, 40)
+    if vc.symbolic:
+        m = vc.split_int(m, 1, 12)
+    f = vc.fn(TC + "utc2TerrestrialTime")
+    if vc.symbolic:
+        vc.stub(SDT + "@JulianDate", lambda x: x)
+        gj = vc.fn(SDT + "JulianDate.getJulianDate")
+        midnight = gj(lambda x: x, y, m, d, 0, 0, 0)
+        vc.stub(TC + "@JulianDate", type("JDs", (), {"getJulianDate": staticmethod(lambda *a: gj(lambda x: x, *a))}))
+    else:
+        from resonaate.physics.time.stardate import JulianDate
+        midnight = float(JulianDate.getJulianDate(y, m, d, 0, 0, 0))
+    tt, ttt = f(y, m, d, h, mi, s, dat)
+    secs = h * 3600 + mi * 60 + s + dat + 32.184
+    vc.ensure("O-C04-tt.seconds", vc.eq(tt, secs, 1e-9))
+    vc.ensure("O-C04-tt.continuous", vc.eq(ttt * 36525, midnight + secs / 86400 - 2451545, 1e-7) if vc.symbolic else abs(ttt * 36525 - (midnight + secs / 86400 - 2451545)) < 1e-8)
